@@ -148,13 +148,20 @@ class Ref:
             d, s = self.need(a[0]), self.need(a[1])
             self.key += (a[0] == a[1], min(len(d[0]), 6), min(len(s[0]), 6), d[1], s[1])
             self.st[a[0]], self.st[a[1]] = s, d
-        elif op in ("resize", "resizev", "resizeself"):
+        elif op in ("resize", "resizev", "resizeself", "resizefrom"):
             o = self.need(a[0])
             l, n = o[0], a[1]
             if op == "resize":
                 f = dfl
             elif op == "resizev":
                 f = a[2]
+            elif op == "resizefrom":
+                # dst.resize(n, src[i]): the fill value is an element of ANOTHER array (whose block may be a neighbour)
+                sl = self.need(a[2])[0]
+                if a[2] == a[0] or a[3] >= len(sl) or sl[a[3]] is None:
+                    raise Invalid()
+                f = sl[a[3]]
+                self.key += (min(n, 40) // 8,)
             else:
                 if a[2] >= len(l) or l[a[2]] is None:
                     raise Invalid()
@@ -266,6 +273,38 @@ def observe(r):
         if o is not None:
             tail.append("arr drop %d" % i)
     return tail + ["arr live", "arr heap"]
+
+
+def desugar(case):
+    """for the Lean driver: `resizefrom d n s i` is `resizev d n <the value of s[i] at that point>` (a call by const reference
+    to an element that is not part of the receiver IS a call with that value)"""
+    if not any(" resizefrom " in l for l in case):
+        return case
+    r = Ref()
+    out = []
+    for l in case:
+        t = l.split()
+        if t[1] == "resizefrom":
+            v = r.need(int(t[4]))[0][int(t[5])]
+            l2 = "arr resizev %s %s %d" % (t[2], t[3], v)
+            out.append(l2)
+        else:
+            out.append(l)
+        r.step(l)
+    return out
+
+
+def neighbour_cases(cls):
+    """many small arrays allocated back to back, then one of them grown far beyond the distance to its neighbours with a
+    neighbour's element as the fill value (an implementation that classifies `value` by ADDRESS RANGE must not mistake it)"""
+    cases = []
+    for k, n in ((4, 64), (2, 40), (1, 24), (4, 300)):
+        base = ["arr cfg %d 8" % cls] + ["arr fill %d %d %d" % (i, k, 20 + i) for i in range(8)]
+        for d in range(8):
+            for s_ in (d - 1, d + 1, (d + 3) % 8):
+                if 0 <= s_ < 8 and s_ != d:
+                    cases.append(close(base + ["arr resizefrom %d %d %d %d" % (d, n, s_, k - 1), "arr iter %d" % d]))
+    return cases
 
 
 def close(case):
@@ -396,8 +435,12 @@ def gen_random_case(rng, cls, maxlen, maxval=240):
                 emit("arr resizev %d %d %d" % (i, n, val()))
             else:
                 init = [x for x, v in enumerate(l) if v is not None]
-                if init:
+                if init and rng.chance(2, 3):
                     emit("arr resizeself %d %d %d" % (i, n, rng.pick(init)))
+                elif j != i:
+                    src = [x for x, v in enumerate(r.st[j][0]) if v is not None]
+                    if src:
+                        emit("arr resizefrom %d %d %d %d" % (i, rng.pick([n, n + 16, 24 + rng.below(60)]), j, rng.pick(src)))
         elif k < 36:
             if l:
                 emit("arr set %d %d %d" % (i, rng.below(len(l)), val()))
@@ -428,7 +471,7 @@ def gen_random_case(rng, cls, maxlen, maxval=240):
 
 
 def gen_cases(rng, cls, tier):
-    cases = gen_systematic(cls, 1 if tier == "quick" else 2)
+    cases = gen_systematic(cls, 1 if tier == "quick" else 2) + neighbour_cases(cls)
     n = 2500 if tier == "quick" else 40000
     cases += [gen_random_case(rng, cls, 40 if tier == "quick" else 70) for _ in range(n)]
     return cases
@@ -603,7 +646,7 @@ def run_tie(prop, spec, tier, seed):
 
     nm = 0
     for cls, cases in sets.items():
-        outs = seqtie.run_stream(None, cases, RESET, is_driver=True)
+        outs = seqtie.run_stream(None, [desugar(c) for c in cases], RESET, is_driver=True)
         for c, e, o in zip(cases, exp[cls], outs):
             # the model has lifetimes for both element kinds; the oracle states them for class types only
             d = differs(cls, e, o)
@@ -632,7 +675,7 @@ def replay(prop, spec, path):
         return 2
     e = expected(ops)
     o = canon(e, run_impl(binary, [ops], symbolize=True)[0])
-    m = seqtie.run_stream(None, [ops], RESET, is_driver=True)[0]
+    m = seqtie.run_stream(None, [desugar(ops)], RESET, is_driver=True)[0]
     bad = False
     for i, l in enumerate(ops):
         ee, oo, mm = e[i], (o[i] if i < len(o) else "<missing>"), (m[i] if i < len(m) else "<missing>")
